@@ -33,8 +33,12 @@ func F(c []interfaces.CommitteeMember) *big.Int {
 	return f.Div(f, three)
 }
 
-// Q = W - F.
+// Q = W - floor((W-1)/3). For W = 0 the formula read literally gives floor(-1/3) = -1 and Q = 1: a committee without
+// weight has no attainable quorum (and, whatever one makes of f there, a certificate nobody of weight signed is not a quorum).
 func Q(c []interfaces.CommitteeMember) *big.Int {
+	if Total(c).Sign() == 0 {
+		return new(big.Int).Set(one)
+	}
 	return new(big.Int).Sub(Total(c), F(c))
 }
 
